@@ -26,6 +26,8 @@ CHECKS = {
          "Held on generated registries: every element x definer depth 0..3 enumerated, random basedOn graphs with cycles, self-loops and missing parents; all ids resolved and compared with the reference; registry unchanged; clones independent."),
  "C16": ("exploration", "reference semantics evaluated on the generator's template AST, compared line by line with the paragraphs of RenderToDocument/RenderTemplateToDocument; failing cases delta-debugged on AST and data to a minimal case that names the finding", "4/C16",
          "Held on generated template/data pairs over the documented grammar (variables, if/else, each over scalars and maps with this/@index/@first/@last, nested each, blocks with inheritance, image placeholders, hostile literals) with directive-like, multi-line, non-string, empty and missing data."),
+ "C11": ("exploration", "reference map kind -> latest call compared with what an independent reader resolves from w:sectPr through the relationships into the header/footer parts (token, text, PAGE field, alignment, run formatting)", "4/C11",
+         "Held on generated call sequences with repeats, page settings, other content, save/open cycles and template rendering; every save is resolved and compared with the latest call per kind."),
 }
 PENDING = {}
 ALL = ["C%02d" % i for i in range(1, 21)]
